@@ -74,6 +74,9 @@ def attempt {α} (x : M α) : M (Except Err α) := fun w =>
   match x w with
   | (w', r) => (w', .ok r)
 
+/-- run `x` only when `c` holds -/
+def whenM (c : Bool) (x : M Unit) : M Unit := if c then x else pure ()
+
 def getW : M World := fun w => (w, .ok w)
 def modifyW (f : World → World) : M Unit := fun w => (f w, .ok ())
 
@@ -111,28 +114,24 @@ def account (sig : Sig) (mutating : Bool) : World → World × Bool := fun w =>
   let faulted := w.faults.any (fun f => f.sig = sig && f.occ = occ)
   ({ w with seen := seen', trace := { sig := sig, failed := faulted, mutating := mutating } :: w.trace }, faulted)
 
-def markFailed (w : World) : World :=
-  match w.trace with
-  | e :: es => { w with trace := { e with failed := true } :: es }
-  | [] => w
+/-- a Chtimes whose target is a time stamped during the case is invisible: whether two "now"s
+coincide is a clock-granularity accident (DESIGN 4.3) -/
+def isGhost : Call → Bool
+  | .chtimes _ _ .fresh => true
+  | _ => false
+
+/-- forward the call to the filesystem of `side` -/
+def execCall (cfg : Cfg) (side : Side) (c : Call) : M Ret := fun w =>
+  match (cfg.side side).call w.fs c with
+  | (m', r) => ({ w with fs := m' }, r)
 
 /-- a path-taking primitive call on `side` -/
 def primCall (cfg : Cfg) (side : Side) (c : Call) : M Ret := fun w =>
-  -- a Chtimes whose target is a time stamped during the case is invisible: whether two "now"s
-  -- coincide is a clock-granularity accident (DESIGN 4.3)
-  let ghost := match c with
-    | .chtimes _ _ .fresh => true
-    | _ => false
-  if ghost then
-    match (cfg.side side).call w.fs c with
-    | (m', r) => ({ w with fs := m' }, r)
+  if isGhost c then execCall cfg side c w
   else
-    let (w1, faulted) := account { side := side, method := callMethod c, args := callArgs c } (callMutating c) w
-    if faulted then (w1, .error .io)
-    else
-      match (cfg.side side).call w1.fs c with
-      | (m', .ok r) => ({ w1 with fs := m' }, .ok r)
-      | (m', .error e) => (markFailed { w1 with fs := m' }, .error e)
+    match account { side := side, method := callMethod c, args := callArgs c } (callMutating c) w with
+    | (w1, true) => (w1, .error .io)
+    | (w1, false) => execCall cfg side c w1
 
 def primInfo (cfg : Cfg) (side : Side) (c : Call) : M Info := do
   match ← primCall cfg side c with
@@ -171,8 +170,7 @@ def hWrite (cfg : Cfg) (wh : WHandle) (off : Nat) (data : String) : M Unit := do
   primH wh "write" [natS data.utf8ByteSize] true
   fun w =>
     match (cfg.side wh.side).hwrite w.fs wh.h off data with
-    | (m', .ok ()) => ({ w with fs := m' }, .ok ())
-    | (m', .error e) => (markFailed { w with fs := m' }, .error e)
+    | (m', r) => ({ w with fs := m' }, r)
 
 def hRead (wh : WHandle) : M Unit := primH wh "read" [] false
 
